@@ -94,7 +94,17 @@ struct Setup {
 }
 
 pub fn run_case_with(i: u64, rng: &mut Rng, rep: &mut Report, verbose: bool, force_fault: bool, sigp: &str) {
-    let (pages, n) = gen_pages(rng);
+    let (mut pages, n) = gen_pages(rng);
+    // "slot" cookies: the server keeps the paging state itself and hands back the same opaque handle
+    // with every page but the last
+    let slot = pages.len() >= 2 && rng.chance(1, 6);
+    if slot {
+        for p in pages.iter_mut() {
+            if !p.cookie.is_empty() {
+                p.cookie = b"slot-7".to_vec();
+            }
+        }
+    }
     // connection loss exactly at a page boundary: the server closes right after the Done of page k
     // (which carried a live cookie), before the follow-up request can be answered
     let fault_after_page: Option<usize> = if pages.len() >= 2 && (force_fault || rng.chance(1, 8)) { Some(rng.usize(pages.len() - 1)) } else { None };
@@ -140,6 +150,7 @@ pub fn run_case_with(i: u64, rng: &mut Rng, rep: &mut Report, verbose: bool, for
                         None
                     }
                     Some((_, cookie)) if cookie.is_empty() => Some(0),
+                    Some((_, cookie)) if slot && cookie == b"slot-7" => Some(reqs.iter().filter(|r| matches!(r.op, Req::Search { .. })).count() - 1),
                     Some((_, cookie)) => pages2.iter().position(|p| &p.cookie == cookie).map(|x| x + 1).or_else(|| {
                         notes.push(format!("unknown cookie {}", ber::hex(cookie)));
                         None
@@ -358,6 +369,9 @@ pub fn run_case_with(i: u64, rng: &mut Rng, rep: &mut Report, verbose: bool, for
     }
     if i < 2 {
         rep.sample(json!({"lane":"paging","case":i,"result_set":n,"page_size_requested":setup.page_size,"pages":pages.iter().take(10).map(|p| json!({"items":p.items.len(),"cookie_len":p.cookie.len()})).collect::<Vec<_>>(),"chain":setup.chain,"other_controls":setup.other_controls.len(),"requests_seen":searches.len()}));
+    }
+    if slot {
+        rep.count("conversations_with_a_constant_cookie", 1);
     }
     rep.case(Some(fnv(format!("{:?}{:?}", pages.iter().map(|p| (p.items.len(), p.cookie.clone())).collect::<Vec<_>>(), setup.chain).as_bytes())));
 }
